@@ -257,6 +257,8 @@ func TestRun(t *testing.T) {
 	collect()
 	staleGuard(rec, vr.Scale(30, 600))
 	collect()
+	slowPingWrite(rec, vr.Scale(30, 300))
+	collect()
 	rel, reuse, checked, poisoned := pool.VerifTrackerStats()
 	rec.Count("tracker_releases_observed", rel)
 	rec.Count("tracker_reuses_of_released_objects", reuse)
